@@ -35,4 +35,9 @@ CHECKS = {
         quick=dict(groups=[G("stateful", "^TestC09Stateful$", 400, 8)]),
         thorough=dict(groups=[G("stateful", "^TestC09Stateful$", 6000, 16)]),
     ),
+    "C08": dict(
+        title="Netmap history: last N maps retrievable exactly across count changes",
+        quick=dict(groups=[E("exhaustive", "^TestC08Exhaustive$", 12, env=dict(VERIF_KEEP_GOING=1)), G("random", "^TestC08Random$", 60, 4)]),
+        thorough=dict(groups=[E("exhaustive", "^TestC08Exhaustive$", 12, env=dict(VERIF_KEEP_GOING=1)), G("random", "^TestC08Random$", 1500, 16)]),
+    ),
 }
